@@ -637,6 +637,11 @@ func inRange(start, end, val []byte, isEnd bool) bool {
 	return true
 }
 
+// sameBoundary compares two range boundaries, nil (open) only equals nil
+func sameBoundary(a, b []byte) bool {
+	return (a == nil) == (b == nil) && bytes.Equal(a, b)
+}
+
 func (o *FilterOptimizer) intersectionRange(l, r *ScanType) *ScanType {
 	if len(l.keys) != 2 || len(r.keys) != 2 {
 		return &ScanType{FULL, nil}
@@ -652,7 +657,7 @@ func (o *FilterOptimizer) intersectionRange(l, r *ScanType) *ScanType {
 	}
 
 	// Same range just return left
-	if bytes.Compare(lstart, rstart) == 0 && bytes.Compare(lend, rend) == 0 {
+	if sameBoundary(lstart, rstart) && sameBoundary(lend, rend) {
 		return l
 	}
 
@@ -695,7 +700,7 @@ func (o *FilterOptimizer) intersectionRange(l, r *ScanType) *ScanType {
 	}
 
 	// start == end just use MGET
-	if bytes.Compare(nstart, nend) == 0 {
+	if nstart != nil && nend != nil && bytes.Equal(nstart, nend) {
 		return &ScanType{MGET, [][]byte{nstart}}
 	}
 
@@ -717,7 +722,7 @@ func (o *FilterOptimizer) unionRange(l, r *ScanType) *ScanType {
 	}
 
 	// Same range just return left
-	if bytes.Compare(lstart, rstart) == 0 && bytes.Compare(lend, rend) == 0 {
+	if sameBoundary(lstart, rstart) && sameBoundary(lend, rend) {
 		return l
 	}
 
@@ -765,7 +770,7 @@ func (o *FilterOptimizer) unionRange(l, r *ScanType) *ScanType {
 	}
 
 	// start == end just use MGET scan
-	if bytes.Compare(nstart, nend) == 0 {
+	if nstart != nil && nend != nil && bytes.Equal(nstart, nend) {
 		return &ScanType{MGET, [][]byte{nstart}}
 	}
 	return &ScanType{RANGE, [][]byte{nstart, nend}}
